@@ -726,6 +726,107 @@ def input_chain_cases():
             for blocks in ([True], [False, True, False], [True, True, False], [False, False, True, True])]
 
 
+# ---- entry points x passthrough x a bot message generated INSIDE the turn of a rewriting input rail:
+# {"lib": "rewrite_entry", "entry": "prompt"|"messages", "passthrough": bool, "ack": "none"|"predef"|"llm",
+#  "rewrites": [bool per turn]}.  The input rail replaces $user_message by a masked text and (ack) lets the
+# bot acknowledge it - with a predefined message or one generated by the LLM (generate_bot_message).
+# Observed: for every prompt the LLM receives, whether it contains the ORIGINAL / the REWRITTEN text.
+
+REWRITE_CO = """
+define flow mask rail
+  $masked = execute mask_rail
+  if $masked != $user_message
+    $user_message = $masked
+{ack}
+"""
+
+
+def run_rewrite_entry_case(case):
+    logging.disable(logging.CRITICAL)
+    sys.path.insert(0, C.REPO)
+    from nemoguardrails import LLMRails, RailsConfig
+    from nemoguardrails.actions import action
+    from tests.utils import FakeLLM
+
+    ack = {"none": "", "predef": "    bot acknowledge masking", "llm": "    bot acknowledge masking"}[case["ack"]]
+    co = REWRITE_CO.format(ack=ack)
+    if case["ack"] == "predef":
+        co += '\ndefine bot acknowledge masking\n  "ACKz"\n'
+    yml = "models: []\nrails:\n  input:\n    flows: [mask rail]\n"
+    if case["passthrough"]:
+        yml += "passthrough: true\n"
+    yml += "core:\n  embedding_search_provider:\n    name: verif\n"
+    config = RailsConfig.from_content(co, yml)
+    config.config_path = ensure_cfg_dir()
+    log = {"turn": 0, "prompts": []}
+
+    class Rec(FakeLLM):
+        def _reply(self, prompt):
+            text = prompt if isinstance(prompt, str) else json.dumps(prompt, default=str)
+            t = log["turn"]
+            log["prompts"].append({"original": f"SECRET{t}z" in text, "rewritten": f"MASKED{t}z" in text,
+                                   "earlier_original": any(f"SECRET{k}z" in text for k in range(t))})
+            return f"L{t}x{len(log['prompts'])}z"
+
+        def _call(self, prompt, stop=None, run_manager=None, **kw):
+            return self._reply(prompt)
+
+        async def _acall(self, prompt, stop=None, run_manager=None, **kw):
+            return self._reply(prompt)
+
+    app = LLMRails(config, llm=Rec(responses=[]))
+
+    @action(name="mask_rail", is_system_action=True)
+    async def mask_rail(context=None):
+        return re.sub(r"SECRET(\d+)z", r"MASKED\1z", (context or {}).get("user_message") or "")
+
+    app.register_action(mask_rail, "mask_rail")
+    out, history = [], []
+    for t, rw in enumerate(case["rewrites"]):
+        log.update(turn=t, prompts=[])
+        user = f"please use SECRET{t}z now" if rw else f"plain question {t}"
+        try:
+            if case["entry"] == "prompt":
+                reply = app.generate(prompt=user)
+            else:
+                history.append({"role": "user", "content": user})
+                res = app.generate(messages=history)
+                history.append(res)
+                reply = res.get("content") if res.get("role") != "exception" else "<exception>"
+        except Exception as e:  # noqa: BLE001
+            out.append({"prompts": list(log["prompts"]), "error": f"{type(e).__name__}: {e}"[:300]})
+            break
+        out.append({"prompts": list(log["prompts"]), "reply": str(reply)[:200],
+                    "reply_has_original": f"SECRET{t}z" in str(reply)})
+    return out
+
+
+def rewrite_entry_oracle(case, observed):
+    """If a rail rewrites the message, every later stage - including every prompt sent to the LLM, in this
+    turn and in later turns of the conversation - sees only the rewritten text."""
+    out = []
+    chan = f"generate({case['entry']}=...), passthrough={case['passthrough']}, bot message in the rail: {case['ack']}"
+    for t, (rw, ob) in enumerate(zip(case["rewrites"], observed)):
+        if "error" in ob:
+            out.append(("v1-rewrite-entry-raised", f"{chan}, turn {t}: {ob['error']}", t))
+            break
+        for i, pr in enumerate(ob["prompts"]):
+            if rw and pr["original"]:
+                out.append(("v1-original-text-in-prompt",
+                            f"{chan}, turn {t}: LLM prompt #{i} of the turn contains the ORIGINAL text although the input "
+                            f"rail rewrote $user_message (rewritten text present: {pr['rewritten']})", t))
+            if pr["earlier_original"] and case["entry"] == "messages" and not case["passthrough"]:
+                out.append(("v1-original-text-in-prompt",
+                            f"{chan}, turn {t}: LLM prompt #{i} contains the original text of an earlier rewritten turn", t))
+    return out
+
+
+def rewrite_entry_cases():
+    return [{"lib": "rewrite_entry", "entry": e, "passthrough": p, "ack": a, "rewrites": rws}
+            for e in ("prompt", "messages") for p in (False, True) for a in ("none", "predef", "llm")
+            for rws in ([True], [False, True, True])]
+
+
 # ---- the library rails driven by a JUDGE whose verdict is a function of the prompt it is shown
 # (marker present => block), with texts of edge sizes: the rail must be shown the COMPLETE text
 # that is later released (or the text is refused / the turn fails closed)
@@ -874,6 +975,8 @@ def run_any_library_case(c):
         return run_library_judge_case(c)
     if kind == "input_chain":
         return run_input_chain_case(c)
+    if kind == "rewrite_entry":
+        return run_rewrite_entry_case(c)
     return run_library_case(c)
 
 
@@ -883,13 +986,15 @@ def any_library_oracle(c, observed):
         return library_judge_oracle(c, observed)
     if kind == "input_chain":
         return input_chain_oracle(c, observed)
+    if kind == "rewrite_entry":
+        return rewrite_entry_oracle(c, observed)
     return library_oracle(c, observed)
 
 
 def library_cases_for(pid):
     """The shipped library rails each property probes."""
     if pid == "C01":
-        return input_chain_cases() + library_judge_cases("input")
+        return input_chain_cases() + library_judge_cases("input") + rewrite_entry_cases()
     return library_cases() + library_judge_cases("output")
 
 
@@ -1212,6 +1317,29 @@ def rand_vec(rng, n, alphabet, p_accept=0.6):
     return [("a" if rng.random() < p_accept else rng.choice(alphabet)) for _ in range(n)]
 
 
+def blank_cases(rng):
+    """Empty and whitespace-only user messages (a spurious ASR result, an empty form field): they are
+    user messages like any other - all input rails, in order, before anything else."""
+    cases = []
+    for ver, mode, exc in (("v2", "", False), ("v2", "", True), ("v1", "general", False)):
+        for n_in, n_out in ((1, 1), (2, 1)):
+            for pat in range(4):
+                turns = []
+                for t in range(3):
+                    iv = rand_vec(rng, n_in, ["a", "r"], 0.6)
+                    ov = ["a"] * n_out
+                    turns.append(mk_turn(ver, mode, t, iv, ov, ""))
+                blank = ["", "  "][pat % 2]
+                if pat < 2:      # a blank first message that a rail rejects, then a normal one, then blank accepted
+                    turns[0]["user"], turns[0]["iv"] = blank, ["a"] * (n_in - 1) + ["r"]
+                    turns[2]["user"], turns[2]["iv"] = blank, ["a"] * n_in
+                else:            # normal, blank rejected by rail 0, the other blank accepted
+                    turns[1]["user"], turns[1]["iv"] = blank, ["r"] + ["a"] * (n_in - 1)
+                    turns[2]["user"], turns[2]["iv"] = ["  ", ""][pat % 2], ["a"] * n_in
+                cases.append({"ver": ver, "mode": mode, "exc": exc, "n_in": n_in, "n_out": n_out, "turns": turns})
+    return cases
+
+
 def state_api_cases(focus, rng, n_per_config=8):
     """Colang 1.0 served through the explicit state API (`generate(messages=[new], state=prev.state)`)
     with PER-CALL generation options: one call switches a rails category off, the other calls
@@ -1287,6 +1415,7 @@ def gen_cases(focus, tier, rng):
                 for vec in all_vectors(n, ["a", "r"]):
                     cases.append(conv("v2", "", exc, n_in, n_out, p, vec, T))
     cases += reuse_cases(focus, rng, 14 if tier == "quick" else 70)
+    cases += blank_cases(rng)
     # the messages API is also exercised WITH (neutral) generation options on every call
     names = ["none", "log", "rails_all", "none", "llm_params", "llm_output", "log"]
     for i, c in enumerate(cases):
@@ -1496,7 +1625,7 @@ def run_check(pid, gen, focus, oracle, tier, seed, replay, checker_cmd, rule, as
                     lib_viol += 1
                     by.setdefault(sig, []).append((what, lc, lo))
             for sig, lst in by.items():
-                what, lc, lo = min(lst, key=lambda x: (x[1].get("size", 0), len(x[1].get("blocks", []))))
+                what, lc, lo = min(lst, key=lambda x: (x[1].get("size", 0), len(x[1].get("blocks", x[1].get("rewrites", [])))))
                 out.findings.append(C.Finding(sig, f"{what} ({len(lst)} library conversations)",
                                               {"case": lc, "observed": lo, "signature": sig, "what": what}))
         if lib_obs is not None:
